@@ -14,42 +14,52 @@
 (***************************************************************************)
 EXTENDS Integers, Sequences, FiniteSets, TLC, Json, SequencesExt
 
-CONSTANTS Glyphs, Payloads, HasParallelRule    \* HasParallelRule = TRUE: the rule names the parallel array (the code)
+CONSTANTS Glyphs, Payloads,
+          HasParallelRule,    \* TRUE: the rule names the parallel array (the code)
+          MaxRounds,          \* reorder_glyphs may be applied to one font any number of times
+          Memo                \* TRUE: the design that remembers each coverage's sort permutation from the FIRST call
+                              \* and replays it in later calls (negative configuration)
 
 Perms == {p \in [1..Cardinality(Glyphs) -> Glyphs] : \A i, j \in DOMAIN p : i # j => p[i] # p[j]}
-VARIABLES oldOrder, newOrder, sub, phase
-vars == <<oldOrder, newOrder, sub, phase>>
+VARIABLES order,     \* the font's current glyph order
+          sub, rounds, memo
+vars == <<order, sub, rounds, memo>>
 
-Gid(order, g) == CHOOSE i \in DOMAIN order : order[i] = g
-SortedBy(order, s) == SortSeq(s, LAMBDA a, b : Gid(order, a) < Gid(order, b))
-Init == /\ oldOrder \in Perms /\ newOrder \in Perms
-        /\ oldOrder[1] = newOrder[1]                        \* .notdef stays first
+Gid(o, g) == CHOOSE i \in DOMAIN o : o[i] = g
+SortedBy(o, s) == SortSeq(s, LAMBDA a, b : Gid(o, a) < Gid(o, b))
+Init == /\ order \in Perms
         /\ \E S \in SUBSET Glyphs : S # {} /\
              \E withPar \in BOOLEAN : \E pay \in [Glyphs -> Payloads] :
-               LET cov == SortedBy(oldOrder, SetToSeq(S)) IN
+               LET cov == SortedBy(order, SetToSeq(S)) IN
                sub = [cov |-> cov,
                       par |-> IF withPar THEN [i \in DOMAIN cov |-> pay[cov[i]]] ELSE << >>,
                       keyed |-> [i \in DOMAIN cov |-> [key |-> cov[i], val |-> pay[cov[i]]]]]
-        /\ phase = "old"
+        /\ rounds = 0 /\ memo = << >>
 
-ReorderGlyphs ==
-    /\ phase = "old"
-    /\ LET idx == SortSeq([i \in DOMAIN sub.cov |-> i], LAMBDA a, b : Gid(newOrder, sub.cov[a]) < Gid(newOrder, sub.cov[b])) IN
-       sub' = [cov |-> [i \in DOMAIN idx |-> sub.cov[idx[i]]],
-               par |-> IF sub.par = << >> THEN << >>
-                       ELSE IF HasParallelRule THEN [i \in DOMAIN idx |-> sub.par[idx[i]]]
-                       ELSE sub.par,                      \* a rule that forgets its parallel array
-               keyed |-> SortSeq(sub.keyed, LAMBDA a, b : Gid(newOrder, a.key) < Gid(newOrder, b.key))]
-    /\ phase' = "new" /\ UNCHANGED <<oldOrder, newOrder>>
-Next == ReorderGlyphs
+\* one call of reorder_glyphs(font, new): setGlyphOrder, then every coverage re-sorted with its parallel arrays
+ReorderGlyphs(new) ==
+    /\ rounds < MaxRounds /\ new[1] = order[1]                        \* .notdef stays first
+    /\ LET fresh == SortSeq([i \in DOMAIN sub.cov |-> i], LAMBDA a, b : Gid(new, sub.cov[a]) < Gid(new, sub.cov[b]))
+           idx == IF Memo /\ memo # << >> THEN memo ELSE fresh IN
+       /\ sub' = [cov |-> IF Memo /\ memo # << >> THEN sub.cov              \* "already sorted once": left alone
+                          ELSE [i \in DOMAIN idx |-> sub.cov[idx[i]]],
+                  par |-> IF sub.par = << >> THEN << >>
+                          ELSE IF HasParallelRule THEN [i \in DOMAIN idx |-> sub.par[idx[i]]]
+                          ELSE sub.par,                      \* a rule that forgets its parallel array
+                  keyed |-> SortSeq(sub.keyed, LAMBDA a, b : Gid(new, a.key) < Gid(new, b.key))]
+       /\ memo' = IF Memo /\ memo = << >> THEN fresh ELSE memo
+    /\ order' = new /\ rounds' = rounds + 1
+Next == \E new \in Perms : ReorderGlyphs(new)
 Spec == Init /\ [][Next]_vars
 
 -----------------------------------------------------------------------------
 \* the name-keyed function the subtable denotes
 Meaning(s) == [g \in Range(s.cov) |-> IF s.par = << >> THEN "covered" ELSE s.par[Gid(s.cov, g)]]
 KeyedMeaning(s) == {<<s.keyed[i].key, s.keyed[i].val>> : i \in DOMAIN s.keyed}
-MeaningAction == [][phase = "old" => (Meaning(sub') = Meaning(sub) /\ KeyedMeaning(sub') = KeyedMeaning(sub))]_vars
-Sorted == phase = "new" =>
-    /\ \A i, j \in DOMAIN sub.cov : i < j => Gid(newOrder, sub.cov[i]) < Gid(newOrder, sub.cov[j])
-    /\ \A i, j \in DOMAIN sub.keyed : i < j => Gid(newOrder, sub.keyed[i].key) < Gid(newOrder, sub.keyed[j].key)
+\* every call, the first and any later one, leaves the name-keyed meaning alone ...
+MeaningAction == [][Meaning(sub') = Meaning(sub) /\ KeyedMeaning(sub') = KeyedMeaning(sub)]_vars
+\* ... and the coverage (and keyed list) in increasing glyph id of the CURRENT order
+Sorted ==
+    /\ \A i, j \in DOMAIN sub.cov : i < j => Gid(order, sub.cov[i]) < Gid(order, sub.cov[j])
+    /\ \A i, j \in DOMAIN sub.keyed : i < j => Gid(order, sub.keyed[i].key) < Gid(order, sub.keyed[j].key)
 =============================================================================
